@@ -45,6 +45,13 @@ def anchors(a: Anchors):
            lambda fn: forwards(fn, ("self.__class__",), SL_PARAMS, dict(opts(""), image=("self.image",), molecules=("molecules",))) and defaults(norm(ast.unparse(fn))))
     a.fact("batch_replace_forwards_options", LBT, "BatchLoader.replace", "self.__class__(order=..., scale=..., output_shape=..., corner_safe=...); None -> own value",
            lambda fn: forwards(fn, ("self.__class__",), ["order", "scale", "output_shape", "corner_safe"], opts("")) and defaults(norm(ast.unparse(fn))))
+    MOCK_PARAMS = ["template", "molecules", "noise", "degrees", "central_axis", "order", "scale", "corner_safe"]
+    a.fact("mock_replace_forwards_options", "acryo/loader/_mock.py", "MockLoader.replace",
+           "self.__class__(self._template, molecules=..., noise, degrees, central_axis, order, scale, corner_safe); None -> own value",
+           lambda fn: forwards(fn, ("self.__class__",), MOCK_PARAMS, {"template": ("self._template",), "molecules": ("molecules",), "noise": ("self._noise",),
+                                                                       "degrees": ("self._degrees",), "central_axis": ("self._central_axis",), "order": ("order",),
+                                                                       "scale": ("scale",), "corner_safe": ("corner_safe",)})
+           and all(f"if{k}isNone:{k}=self.{k}" in norm(ast.unparse(fn)) for k in ("molecules", "order", "scale", "corner_safe")))
     a.fact("mapping_tasks_zip_rows", LB, "LoaderBase.iter_mapping_tasks", "zip(dask_array, dict_iterrows(var_kwarg))",
            lambda fn: "forar,kwinzip(dask_array,_misc.dict_iterrows(var_kwarg))" in norm(ast.unparse(fn))
            and "dask_array=self.construct_loading_tasks(output_shape=output_shape)" in norm(ast.unparse(fn)))
@@ -59,6 +66,14 @@ def anchors(a: Anchors):
     a.fact("loader_group_drops_index", LG, "LoaderGroupByIterator.__iter__", "with_features(index).groupby(by) ... drop_features(index)",
            lambda fn: all(t in norm(ast.unparse(fn)) for t in ["loader.molecules.with_features(index).groupby(self._by)",
                                                                "molecules=mole.drop_features(index_col_name)"]))
+
+    a.fact("apply_table_is_list_of_columns", LB, "LoaderBase.apply", "one task list per function, one numpy column per task list, DataFrame(list of columns, schema)",
+           lambda fn: all(t in norm(ast.unparse(fn)) for t in ["forfninfuncs:tasks=self.construct_mapping_tasks(fn,output_shape=self.output_shape)all_tasks.append(tasks)",
+                                                               "all_results=compute(all_tasks)", "df_input=[np.array(r)forrinall_results]",
+                                                               "returnpl.DataFrame(df_input,schema=schema)"]))
+    a.fact("group_apply_table_is_named_columns", "acryo/loader/_group.py", "LoaderGroup.apply", "per group: one task list per function; table = {name: column}",
+           lambda fn: all(t in norm(ast.unparse(fn)) for t in ["forfnin_funcs:", "taskset.append(list(tasks))", "all_tasks.append(taskset)", "keys.append(key)",
+                                                               "forkey,resultinzip(keys,all_results):", "out[key]=pl.DataFrame({name:np.asarray(col)forname,colinzip(schema,result)})"]))
 
 
 # --------------------------------------------------------------------------
@@ -581,6 +596,37 @@ def oracle_surface(ck, rng):
         ck.violation(what=what, inp=inp, key={"site": "surface-" + site}, oracle="loader_surface")
 
 
+def oracle_mock_derived(ck, rng):
+    """loaders derived from a MockLoader (replace / head / tail / filter / groups) simulate with the same template, tilt angles and tilt
+    axis: without noise, the kept molecules' sub-volumes are those of the original loader"""
+    import polars as pl
+    from acryo import MockLoader, Molecules
+    from scipy.spatial.transform import Rotation
+    t = np.zeros((9, 9, 9), np.float32); t[3:6, 2:7, 4:6] = 1; t[5, 5, 2:7] = 2
+    for it in range(2 if ck.tier == "quick" else 8):
+        n = int(rng.integers(3, 6))
+        mol = Molecules(rng.normal(size=(n, 3)) * 0.4, Rotation.random(n, random_state=int(rng.integers(0, 2**31))), features={"k": list(range(n))})
+        axis = [(1.0, 0.0, 0.0), (0.0, 1.0, 0.0), (0.6, 0.8, 0.0)][it % 3]
+        order = [1, 3][it % 2]
+        ld = MockLoader(t, mol, degrees=np.linspace(-60, 60, 7), central_axis=axis, order=order, scale=[1.0, 0.5][it % 2])
+        base = np.asarray(ld.asnumpy())
+        info = {"central_axis": list(axis), "order": order, "n": n}
+        bad = []
+        try:
+            for name, der, rows in (("replace()", ld.replace(), list(range(n))), ("head(2)", ld.head(2), [0, 1]), ("tail(2)", ld.tail(2), [n - 2, n - 1]),
+                                    ("filter(k != 1)", ld.filter(pl.col("k") != 1), [r_ for r_ in range(n) if r_ != 1]),
+                                    ("replace(order)", ld.replace(order=order), list(range(n)))):
+                got = np.asarray(der.asnumpy())
+                if der.order != ld.order or der.scale != ld.scale or got.shape != (len(rows), 9, 9, 9) or not np.allclose(got, base[rows], atol=1e-5):
+                    bad.append(f"{name}: sub-volumes differ from the original loader's by up to "
+                               f"{float(np.abs(got - base[rows]).max()) if got.shape == (len(rows), 9, 9, 9) else 'shape ' + str(got.shape)}")
+        except Exception as e:  # noqa
+            bad.append(f"raised {type(e).__name__}: {e}")
+        ck.oracle_count("mock_derived_loaders", 1, 1)
+        if bad:
+            ck.violation(what="loader derived from a MockLoader: " + "; ".join(bad[:3]), inp=info, key={"site": "mock-derived", "op": bad[0].split(":")[0]}, oracle="mock_derived_loaders")
+
+
 def run(ck: common.Check):
     ck.design_ref = "DESIGN.md §6 C03"
     ck.trusted_base = TB
@@ -589,7 +635,7 @@ def run(ck: common.Check):
     a = Anchors(common.REPO)
     anchors(a)
     ck.write_anchors(PID, a)
-    ck.build(["C03"], ["C03/Property.v", "C03/PropertyRegistry.v"], extra=["C03/Registry.v"])
+    ck.build(["C03"], ["C03/Property.v", "C03/PropertyRegistry.v", "C03/PropertyApply.v"], extra=["C03/Registry.v", "C03/ApplyTable.v"])
     rng = np.random.default_rng(ck.seed + 303)
     corr_histories(ck, rng)
     oracle_results(ck, rng)
@@ -597,6 +643,7 @@ def run(ck: common.Check):
     corr_registry(ck, np.random.default_rng(ck.seed + 30303))
     oracle_binning_rows(ck, rng)
     oracle_surface(ck, np.random.default_rng(ck.seed + 3031))
+    oracle_mock_derived(ck, np.random.default_rng(ck.seed + 3032))
 
 
 def replay(data):
